@@ -424,6 +424,10 @@ func (fd *Client) Query(ctx context.Context, input *dynamodb.QueryInput, opt ...
 		return nil, &smithy.GenericAPIError{Code: "ValidationException", Message: "The table does not have the specified index: " + indexName}
 	}
 
+	if err := table.CheckNumbers(mapDynamoToTypesMapItem(input.ExpressionAttributeValues)); err != nil {
+		return nil, &smithy.GenericAPIError{Code: "ValidationException", Message: err.Error()}
+	}
+
 	if err := table.CheckStartKey(indexName, mapDynamoToTypesMapItem(input.ExclusiveStartKey)); err != nil {
 		return nil, &smithy.GenericAPIError{Code: "ValidationException", Message: err.Error()}
 	}
@@ -471,6 +475,10 @@ func (fd *Client) Scan(ctx context.Context, input *dynamodb.ScanInput, opt ...fu
 	indexName := aws.ToString(input.IndexName)
 	if indexName != "" && !table.HasIndex(indexName) {
 		return nil, &smithy.GenericAPIError{Code: "ValidationException", Message: "The table does not have the specified index: " + indexName}
+	}
+
+	if err := table.CheckNumbers(mapDynamoToTypesMapItem(input.ExpressionAttributeValues)); err != nil {
+		return nil, &smithy.GenericAPIError{Code: "ValidationException", Message: err.Error()}
 	}
 
 	if err := table.CheckStartKey(indexName, mapDynamoToTypesMapItem(input.ExclusiveStartKey)); err != nil {
